@@ -986,6 +986,50 @@ def op_m_opt_if():
     return {"model": _ser(onnxscript.optimizer.optimize(_if_model(True)))}
 
 
+def _two_if_model(tag, w1, w2, cond=True, name="w"):
+    """two If nodes with a constant condition; the taken branch of each owns an initializer called `name` (sibling subgraphs may reuse a
+    name): constant folding inlines both branches and must rename one of the two initializers when it moves them to the main graph"""
+    def branch(gname, x, out, w, op):
+        return helper.make_graph([helper.make_node(op, [x, name], [out])], gname, [], [_vi(out, [2])], initializer=[_init(name, w, np.float32)])
+
+    def other(gname, x, out):
+        return helper.make_graph([helper.make_node("Identity", [x], [out])], gname, [], [_vi(out, [2])])
+    taken1, idle1 = branch(tag + "_b1", "x", "a_t", w1, "Add"), other(tag + "_o1", "x", "a_e")
+    taken2, idle2 = branch(tag + "_b2", "a", "y_t", w2, "Mul"), other(tag + "_o2", "a", "y_e")
+    nodes = [helper.make_node("Constant", [], ["cond"], value=helper.make_tensor("c", TensorProto.BOOL, [], [cond])),
+             helper.make_node("If", ["cond"], ["a"], then_branch=taken1 if cond else idle1, else_branch=idle1 if cond else taken1),
+             helper.make_node("If", ["cond"], ["y"], then_branch=taken2 if cond else idle2, else_branch=idle2 if cond else taken2)]
+    m = _model(nodes, [_vi("x", [2])], [_vi("y", [2])])
+    onnx.checker.check_model(m)
+    return m
+
+
+def _renamed_branch_initializers(out, name="w"):
+    names = sorted(i.name for i in out.graph.initializer)
+    assert not any(n.op_type == "If" for n in out.graph.node) and len([n for n in names if n.startswith(name)]) == 2, \
+        f"generator degenerate: both branches were expected to be inlined and one initializer renamed, got {names}"
+    return out
+
+
+def op_m_opt_two_if_w():
+    """optimize(): both inlined branches own an initializer `w`, one of them is renamed"""
+    import onnxscript.optimizer
+    return {"model": _ser(_renamed_branch_initializers(onnxscript.optimizer.optimize(_two_if_model("T", [1.0, 2.0], [3.0, 4.0]))))}
+
+
+def op_m_opt_two_if_w_b():
+    """the same initializer name in another model (else branches taken, other values): a collision on the same name earlier in the process"""
+    import onnxscript.optimizer
+    return {"model": _ser(_renamed_branch_initializers(onnxscript.optimizer.optimize(_two_if_model("U", [5.0, 6.0], [7.0, 8.0], cond=False))))}
+
+
+def op_m_pass_two_if_w():
+    """the same kind of model through the shared FoldConstantsPass object"""
+    res = _run_shared_pass(_two_if_model("V", [0.5, 0.25], [2.0, 4.0]))
+    _renamed_branch_initializers(onnx.load_from_string(res["model"]))
+    return res
+
+
 _PASS = None
 
 
